@@ -195,12 +195,15 @@ SPECS["C04"] = {
 }
 
 SPECS["C12"] = {
-    "parts": [{"engine": "m", "module": "c12"}],
-    "bounds": "every DicomTime value its constructors admit: all four precisions, hour 0-23, minute 0-59, second 0-60 (leap second), fraction of 1-6 digits with any value",
-    "outside": "text round trip of dates, times and date-times (decimal formatting with padding is not in the Engine M vocabulary), dates and date-times ranges, time zones, DICOM range text A-B; "
-               "the parsers are covered for panic-freedom only (C05)",
+    "parts": [{"engine": "m", "module": "c12"}, {"engine": "m", "module": "c12rt"}],
+    "bounds": "every DicomTime value its constructors admit: all four precisions, hour 0-23, minute 0-59, second 0-60 (leap second), fraction of 1-6 digits with any value (range clause); "
+              "round trip and reported length: every DicomDate / DicomTime / DicomDateTime value that the constructors (from_y .. from_date_and_time_with_time_zone, and the crate-private from_hmsf the parsers use) "
+              "return Ok for on symbolic arguments, one instance per constructor combination; offsets -12:00 .. +14:00 in whole minutes (the offsets a DICOM DT can carry)",
+    "outside": "ranges of dates and date-times, the DICOM range text A-B, multi-valued text, offsets outside -12:00..+14:00 or with seconds (the constructors accept them, DT text cannot carry them); "
+               "the parsers' behaviour on arbitrary text is covered for panic-freedom only (C05)",
     "assumptions": ["contract: chrono::NaiveTime::from_hms_micro_opt(h, m, s, us) is Some iff h < 24, m < 60, s < 60, us < 2 000 000 (chrono documentation: microseconds above 999 999 encode a leap second)",
-                    "contracts: u32::pow(10, e) as a table for e <= 9, Option::unwrap_or, OptionExt::context"],
+                    "contracts: u32::pow(10, e) as a table for e <= 9, Option::unwrap_or, OptionExt::context", "core::fmt: template interpreter and integer rendering in enginem/fmtlib.py; "
+                    "chrono::FixedOffset::{east_opt, west_opt, fmt} run from chrono's MIR", "snafu context/fail: error values are opaque"],
 }
 
 SPECS["C31"] = {
